@@ -767,6 +767,63 @@ func c11Scenarios() []c11Scenario {
 			return
 		}
 	}
+	// S4e: two voxel writes into sibling blocks (two octants of one lower-resolution block) of a label volume with one
+	// down-sampling level. Each write rewrites part of the same stored lower-resolution block; at quiescence that block
+	// must hold the vote over both writes (C14's documented down-sampling), whichever write finished last.
+	sc = append(sc, c11Scenario{name: "S4e:labelmap:post-raw||post-raw:sibling-octants:downres", quietGate: true, setup: func() (*c11World, error) {
+		root, err := vsrv.NewRepo()
+		if err != nil {
+			return nil, err
+		}
+		if err := vsrv.NewInstance(root, "labelmap", "lm", map[string]string{"BlockSize": "16,16,16", "MaxDownresLevel": "1"}); err != nil {
+			return nil, err
+		}
+		vsrv.Quiesce()
+		return &c11World{root: root, nodes: map[string]string{}, resp: make([]vsrv.Resp, 4)}, nil
+	},
+		bodies: func(w *c11World) []func() {
+			mk := func(i int, off [3]int, label uint64) func() {
+				return func() {
+					v := newLMVol(off, [3]int{16, 16, 16})
+					v.fill(off, [3]int{off[0] + 16, off[1] + 16, off[2] + 16}, label)
+					w.resp[i] = lmPostRaw(w.root, "lm", v, false)
+				}
+			}
+			return []func(){mk(0, [3]int{0, 0, 0}, 11), mk(1, [3]int{16, 0, 0}, 22)}
+		},
+		verdict: func(w *c11World) (bad []string) {
+			vsrv.Quiesce()
+			if !acked(w.resp[0]) || !acked(w.resp[1]) {
+				return
+			}
+			hi, r0 := lmGetRaw(w.root, "lm", [3]int{0, 0, 0}, [3]int{32, 32, 32}, true, 0)
+			lo, r1 := lmGetRaw(w.root, "lm", [3]int{0, 0, 0}, [3]int{16, 16, 16}, true, 1)
+			if hi == nil || lo == nil {
+				return []string{fmt.Sprintf("downres-unreadable\tafter two acknowledged writes: level 0 %s, level 1 %s", trunc(r0.String(), 120), trunc(r1.String(), 120))}
+			}
+			want := c14Vote(hi.v, 32)
+			for i := range want {
+				if want[i] != lo.v[i] {
+					x, y, z := i%16, i/16%16, i/256
+					return []string{fmt.Sprintf("downres-stale\tafter two acknowledged writes into sibling blocks, level 1 voxel (%d,%d,%d) is %d, the vote over level 0 gives %d", x, y, z, lo.v[i], want[i])}
+				}
+			}
+			return
+		},
+		observe: func(w *c11World) string {
+			count := func(scale int, size [3]int) string {
+				v, r := lmGetRaw(w.root, "lm", [3]int{0, 0, 0}, size, true, scale)
+				if v == nil {
+					return fmt.Sprintf("unreadable(%d)", r.Code)
+				}
+				n := map[uint64]int{}
+				for _, l := range v.v {
+					n[l]++
+				}
+				return fmt.Sprintf("0:%d 11:%d 22:%d", n[0], n[11], n[22])
+			}
+			return fmt.Sprintf("codes=%d,%d level0{%s} level1{%s}", w.resp[0].Code, w.resp[1].Code, count(0, [3]int{32, 32, 32}), count(1, [3]int{16, 16, 16}))
+		}})
 	sc = append(sc, c11Scenario{name: "S4d:labelmap:split-supervoxel||cleave:same-body", quietGate: true, setup: func() (*c11World, error) {
 		w, err := lmWorld()
 		if err == nil {
